@@ -2,5 +2,5 @@
 EXTENDS LangGen
 MCP == [names |-> {"x"}, funs |-> {"f", "g"}, arity |-> [f \in {"f", "g"} |-> 1], ty |-> "num",
         kinds |-> {"make", "set", "shout", "call", "def", "ret", "if", "loop", "varvar"},
-        ops |-> {"add"}, maxStmts |-> atoi(IOEnv.MAXSTMTS), minStmts |-> 2, maxDepth |-> atoi(IOEnv.MAXDEPTH), fuel |-> 1200, events |-> atoi(IOEnv.EVENTS)]
+        prelude |-> <<>>, preDecl |-> {}, ops |-> {"add"}, maxStmts |-> atoi(IOEnv.MAXSTMTS), minStmts |-> 2, maxDepth |-> atoi(IOEnv.MAXDEPTH), fuel |-> 1200, events |-> atoi(IOEnv.EVENTS)]
 ====
